@@ -108,6 +108,15 @@ func ShareWithConfig[T any](config ShareConfig[T]) func(Observable[T]) Observabl
 			}
 		}
 
+		// resetLocked is reset under the lock. The unlock is deferred: reset unsubscribes from
+		// the source, and Unsubscribe re-raises the panics of the teardowns it runs.
+		resetLocked := func(currentSubject Subject[T], currentSourceSubscription Subscription) {
+			mu.Lock()
+			defer mu.Unlock()
+
+			reset(currentSubject, currentSourceSubscription)
+		}
+
 		return NewObservableWithContext(func(subscriberCtx context.Context, destination Observer[T]) Teardown {
 			mu.Lock()
 
@@ -133,9 +142,7 @@ func ShareWithConfig[T any](config ShareConfig[T]) func(Observable[T]) Observabl
 						currentSubject.NextWithContext,
 						func(ctx context.Context, err error) {
 							if config.ResetOnError {
-								mu.Lock()
-								reset(currentSubject, currentSourceSubscription)
-								mu.Unlock()
+								resetLocked(currentSubject, currentSourceSubscription)
 							} else {
 								atomic.StoreInt32(&hasBeenResetOnError, 1)
 							}
@@ -144,9 +151,7 @@ func ShareWithConfig[T any](config ShareConfig[T]) func(Observable[T]) Observabl
 						},
 						func(ctx context.Context) {
 							if config.ResetOnComplete {
-								mu.Lock()
-								reset(currentSubject, currentSourceSubscription)
-								mu.Unlock()
+								resetLocked(currentSubject, currentSourceSubscription)
 							} else {
 								atomic.StoreInt32(&hasBeenResetOnCompletion, 1)
 							}
@@ -168,6 +173,7 @@ func ShareWithConfig[T any](config ShareConfig[T]) func(Observable[T]) Observabl
 				sub.Unsubscribe()
 
 				mu.Lock()
+				defer mu.Unlock() // deferred: the teardown of the source may panic
 
 				refCount--
 				if config.ResetOnRefCountZero {
@@ -175,8 +181,6 @@ func ShareWithConfig[T any](config ShareConfig[T]) func(Observable[T]) Observabl
 						reset(currentSubject, currentSourceSubscription)
 					}
 				}
-
-				mu.Unlock()
 			}
 		})
 	}
